@@ -406,6 +406,48 @@ def table_agreement(ctx):
                   'the handler is called outside the dispatcher lock: requests of different connections interleave', hr)
 
 
+def _echo_through_helper_object(ctx, m, fi, ret, spec, action):
+    """`target = Target('read', specifier)` ... `return target.reply(READREPLY, ...)`: the reply triple is built by a method of an
+    object of a class of the dispatcher module.  Its second element has to be the specifier the constructor was given, kept
+    verbatim (`self.specifier = specifier`); a specifier put together again from its parts (`f'{self.module}:{self.name}'`)
+    differs from the request's for the short forms (`read mod` is answered as `mod:value`)"""
+    obj = ret.value.func.value.id
+    ctor = [x.value for x in body_walk(fi.node) if isinstance(x, ast.Assign) and len(x.targets) == 1 and isinstance(x.targets[0], ast.Name)
+            and x.targets[0].id == obj and isinstance(x.value, ast.Call) and isinstance(x.value.func, ast.Name)]
+    q = m.resolve_name(fi.module, ctor[0].func.id) if len(ctor) == 1 else None
+    ci = m.classes.get(q) if q else None
+    meth = ci.methods.get(ret.value.func.attr) if ci is not None else None
+    init = ci.methods.get('__init__') if ci is not None else None
+    if meth is None or init is None:
+        ctx.undecided(f'{fi.qualname}:echoes specifier', ret, f'`{src(ret.value)[:80]}`: the reply is built by something that is not followed', fi)
+        return
+    params = [a.arg for a in init.node.args.args][1:]
+    given = {p: a for p, a in zip(params, ctor[0].args)}
+    given.update({k.arg: k.value for k in ctor[0].keywords if k.arg})
+    for tup, r2, cond in _returned_triples(meth):
+        if tup is None or len(tup.elts) != 3:
+            ctx.undecided(f'{fi.qualname}:echoes specifier', ret, f'{meth.qualname} does not return a literal triple', fi)
+            continue
+        e = tup.elts[1]
+        if isinstance(e, ast.Attribute) and dotted(e.value) == 'self':
+            vals = [v for t, v, st in attr_stores(init.node) if t.attr == e.attr and dotted(t.value) == 'self']
+            verbatim = bool(vals) and all(isinstance(v, ast.Name) and v.id in given and src(given[v.id]) == spec for v in vals)
+            if verbatim:
+                ctx.ok(f'{fi.qualname}:echoes specifier', ret, f'{meth.qualname} returns self.{e.attr}, which holds the specifier it was constructed with', fi)
+            else:
+                ctx.undecided(f'{fi.qualname}:echoes specifier', ret, f'self.{e.attr} of {ci.qualname} is not simply the given specifier', fi)
+            continue
+        recomposed = isinstance(e, (ast.JoinedStr, ast.BinOp)) or (isinstance(e, ast.Call) and call_attr(e) in ('join', 'format'))
+        short_forms = any(isinstance(c, ast.Compare) and isinstance(c.left, ast.Constant) and c.left.value == ':' and any(isinstance(o, (ast.In, ast.NotIn)) for o in c.ops)
+                          for c in ast.walk(init.node))
+        if recomposed and short_forms:
+            ctx.bad(f'{fi.qualname}:echoes specifier', ret, f'{meth.qualname} answers with `{src(e)}`, a specifier put together from the parts, while the constructor '
+                    f'accepts a specifier without `:` (the short form): `{action} mod` is answered under `mod:<name>` - a client that keys its pending requests by '
+                    '(reply action, specifier) never matches that reply', fi)
+        else:
+            ctx.undecided(f'{fi.qualname}:echoes specifier', ret, f'second element `{src(e)}` of {meth.qualname} not recognised', fi)
+
+
 @rule('C07.R5b', min_instances=6)
 def replies_echo_specifier(ctx):
     """second element of every reply triple is the request's specifier (None only where specifier is falsy)"""
@@ -416,6 +458,9 @@ def replies_echo_specifier(ctx):
             continue
         spec = fi.node.args.args[2].arg if len(fi.node.args.args) > 2 else 'specifier'
         for tup, ret, cond in _returned_triples(fi):
+            if tup is None and isinstance(ret.value, ast.Call) and isinstance(ret.value.func, ast.Attribute) and isinstance(ret.value.func.value, ast.Name):
+                _echo_through_helper_object(ctx, m, fi, ret, spec, action)
+                continue
             if tup is None or len(tup.elts) != 3:
                 continue
             e = tup.elts[1]
